@@ -1362,6 +1362,12 @@ def ev_restart(w, ev):
     if deck is None:
         return "skip:nodeck"
     deck.prs = None
+    if ev.get("xform") and deck.image is not None:
+        # between two sessions another program rewrote the stored file (a legal, equivalent rewrite of its XML)
+        from . import pkgxform
+        for x in ev["xform"]:
+            deck.image = pkgxform.apply(deck.image, x)
+        w.probes.hit("image_rewritten_by_another_program")
     w.open_deck(deck, ev.get("form", "stream"), ev.get("pos", 0))
     w.probes.hit("restart")
     for o in w.oracles:
